@@ -278,6 +278,7 @@ func (d *driver) teardown() {
 		return
 	}
 	defer func() { recover() }()
+	defer synctest.Wait() // never leave a released task running when the runtime is uninstalled
 	td.Teardown()
 	r := simhook.NewRand(1)
 	for i := 0; i < 6000; i++ {
